@@ -1098,9 +1098,10 @@ func (e *Env) applyRO(op Op) {
 		}
 	}
 	o := e.Opts
-	o.Recover = false
+	// Recover on a read-only open must be harmless (a cleanly closed log needs no repair)
+	o.Recover = e.Opts.Recover || op.Handles == 3
 	if !e.canCheck() {
-		o.Check = false
+		o.Check, o.Recover = false, false
 	}
 	opts := o.Options(e.Cfg)
 	opts.Readonly = true
